@@ -4,6 +4,8 @@ import (
 	"fmt"
 	"math/rand"
 	"strings"
+
+	am "github.com/hashicorp/go-argmapper"
 )
 
 // ---------------------------------------------------------------------------
@@ -18,6 +20,20 @@ type callFacts struct {
 
 func factsOf(s *Scenario) callFacts {
 	return callFacts{fMay: fixpoint(s, may), fMust: fixpoint(s, must)}
+}
+
+// factsNow is factsOf for an instance with history: a run-once converter
+// that has already executed hands out its memoized result whatever its own
+// inputs (that is what run-once means), so from then on it is a provider.
+func factsNow(in *Inst) callFacts {
+	s := in.S
+	s.Convs = append([]FuncSpec{}, in.S.Convs...)
+	for i := range s.Convs {
+		if s.Convs[i].Once && in.W.Execs(i) > 0 {
+			s.Convs[i].In = nil
+		}
+	}
+	return factsOf(&s)
 }
 
 func eventsStr(evs []*Event) string {
@@ -185,6 +201,12 @@ type repOut struct {
 }
 
 func runScenario(ctx *CaseCtx, s Scenario, r *rand.Rand, reps int, res *CaseResult, after func(in *Inst, o *Outcome)) ([]repOut, callFacts) {
+	return runScenarioX(ctx, s, r, reps, res, nil, after)
+}
+
+// runScenarioX additionally lets the caller prepare each fresh instance
+// (e.g. make one input the zero value of its type) before the call.
+func runScenarioX(ctx *CaseCtx, s Scenario, r *rand.Rand, reps int, res *CaseResult, prep func(in *Inst), after func(in *Inst, o *Outcome)) ([]repOut, callFacts) {
 	cf := factsOf(&s)
 	var outs []repOut
 	for k := 0; k < reps; k++ {
@@ -196,6 +218,9 @@ func runScenario(ctx *CaseCtx, s Scenario, r *rand.Rand, reps int, res *CaseResu
 				res.violate("C06", "newfunc-rejected", "NewFunc/BuildFunc rejected a well-formed generated function: "+err.Error(), map[string]interface{}{"scenario": s.String()})
 			}
 			return outs, cf
+		}
+		if prep != nil {
+			prep(in)
 		}
 		args := in.AllArgs(0, r)
 		o := DoCall(in.W, in.Target.Func, args)
@@ -282,16 +307,56 @@ func init() {
 			s, fam := pickGeneralMix(r)
 			res.Key = s.Key()
 			reps := tierReps(c.Tier, 3, 8)
-			outs, _ := runScenario(c, s, r, reps, &res, nil)
-			res.obs("family."+fam, 1)
-			for _, o := range outs {
-				for _, e := range o.O.Events {
+			zero := -1
+			if len(s.Inputs) > 0 && r.Intn(10) == 0 {
+				zero = r.Intn(len(s.Inputs)) // one supplied value is the zero value of its type
+				res.obs("cases_with_a_zero_valued_input", 1)
+			}
+			count := func(evs []*Event) {
+				for _, e := range evs {
 					if e.Func >= 0 && len(e.Args) > 0 {
 						res.NonTrivial = true
 					}
 					res.obs("arguments_checked", int64(len(e.Args)))
 				}
 			}
+			outs, _ := runScenarioX(c, s, r, reps, &res, func(in *Inst) { in.ZeroInput1 = zero + 1 }, func(in *Inst, o *Outcome) {
+				count(o.Events)
+				if o.Class == ClsPanic || r.Intn(2) == 0 {
+					return
+				}
+				// the same objects again: Redefine (planning must leave them
+				// untouched), a call of the redefined function, a second Call
+				det := func(api string, x *Outcome) interface{} {
+					return map[string]interface{}{"scenario": s.String(), "api": api, "class": x.Class, "err": firstLine(errStr(x.Err)), "events": eventsStr(x.Events)}
+				}
+				ropts := in.AllArgs(1, r)
+				if r.Intn(2) == 0 {
+					f, _ := randomFilter(r)
+					ropts = append(ropts, am.FilterInput(f))
+				}
+				o2 := DoRedefine(in.W, in.Target.Func, ropts)
+				res.Evals++
+				if o2.Func != nil && o2.Err == nil && o2.Class == ClsOK {
+					args, _, _ := redefinedArgs(in.W, o2.Func, 1, r)
+					n1 := in.W.NumEvents()
+					o3 := DoCall(in.W, o2.Func, args)
+					res.Evals++
+					for _, msg := range checkBinding(in.W, o3.Events, BindingOpts{AllowedCalls: map[int]bool{1: true}, MinSeq: n1, Via: declaredInputs(o2.Func)}) {
+						res.violate("C01", "binding/"+bindingKind(msg), "redefined function: "+msg, det("call-redefined", &o3))
+					}
+					count(o3.Events)
+					res.obs("redefined_calls", 1)
+				}
+				n2 := in.W.NumEvents()
+				cfNow := factsNow(in) // before the call: what is memoized now
+				o4 := DoCall(in.W, in.Target.Func, in.AllArgs(2, r))
+				res.Evals++
+				checkCall(in, &o4, &cfNow, 2, n2, &res)
+				count(o4.Events)
+				res.obs("second_calls_on_the_same_objects", 1)
+			})
+			res.obs("family."+fam, 1)
 			res.max("distinct_traces_per_case", int64(distinctSigs(outs)))
 			res.Sample = sampleOf(s, outs)
 			return res
@@ -324,6 +389,9 @@ func init() {
 		Run: func(c *CaseCtx) CaseResult {
 			var res CaseResult
 			r := caseRand(c.Seed, "C02", c.Idx)
+			if c.Idx%12 == 11 {
+				return runC02SharedDefaults(c, r)
+			}
 			var s Scenario
 			var fam string
 			if r.Intn(100) < 35 {
@@ -378,4 +446,78 @@ func init() {
 			return ""
 		},
 	})
+}
+
+
+// runC02SharedDefaults: a target that lacks one input must stay refused even
+// after another function, whose default options come from the same
+// caller-owned list, was called with exactly that input.
+func runC02SharedDefaults(c *CaseCtx, r *rand.Rand) (res CaseResult) {
+	s, _ := Constructive(r, ChainCfg{MaxTgt: 2, MaxDepth: 3, MultiIn: r.Intn(2) == 0, Distract: 1, BuiltP: 0, ErrP: 0.3})
+	// find an input whose removal makes the target underivable
+	drop := -1
+	for _, i := range r.Perm(len(s.Inputs)) {
+		t := s
+		t.Inputs = append(append([]Label{}, s.Inputs[:i]...), s.Inputs[i+1:]...)
+		if f := fixpoint(&t, may); !f.AllOK {
+			drop = i
+			break
+		}
+	}
+	if drop < 0 {
+		res.Skip = "no-critical-input"
+		return res
+	}
+	x := s.Inputs[drop]
+	s.Inputs = append(append([]Label{}, s.Inputs[:drop]...), s.Inputs[drop+1:]...)
+	for i := range s.Convs {
+		s.Convs[i].Deliver = DelFunc
+	}
+	res.Key = "shared-defaults " + s.Key() + " missing " + x.String()
+	res.NonTrivial = true
+	res.obs("family.shared-defaults", 1)
+	res.obs("underivable_cases", 1)
+	cf := factsOf(&s)
+	w := NewWorld()
+	list := make([]am.Arg, 0, 8)
+	list = append(list, am.FuncName("fA"), am.FuncName("fB"))
+	in := &Inst{W: w, S: s}
+	w.NextDefaults = list[:2]
+	t, err := w.Build(-1, s.Target, r)
+	if err != nil {
+		res.Skip = "instantiate"
+		return res
+	}
+	in.Target = t
+	for i, cs := range s.Convs {
+		b, err := w.Build(i, cs, r)
+		if err != nil {
+			res.Skip = "instantiate"
+			return res
+		}
+		in.Convs = append(in.Convs, b)
+		in.ConvArgs = append(in.ConvArgs, am.ConverterFunc(b.Func))
+	}
+	// the other function takes X and has the shorter prefix as defaults
+	w.NextDefaults = list[:1]
+	other, err := w.Build(-20, FuncSpec{In: []Label{{Type: x.Type}}, InForm: FormPos, OutForm: FormPos}, r)
+	if err != nil {
+		res.Skip = "instantiate"
+		return res
+	}
+	for k := 0; k < 3; k++ {
+		n0 := w.NumEvents()
+		o := DoCall(w, in.Target.Func, in.AllArgs(2*k, r))
+		res.Evals++
+		checkCall(in, &o, &cf, 2*k, n0, &res)
+		if o.Class == ClsUnsat {
+			res.obs("refused_with_unsatisfied_error", 1)
+		}
+		// another function, another call: X is supplied there and only there
+		id := w.FreshInput(2*k+1, 900, x)
+		DoCall(w, other.Func, []am.Arg{InputArg(x, id)})
+		res.Evals++
+	}
+	res.Sample = map[string]interface{}{"scenario": s.String(), "missing_input": x.String(), "family": "shared-defaults"}
+	return res
 }
